@@ -172,6 +172,9 @@ func (t *Translator) setup08(spec TransSpec) {
 		}
 		pkg := cur08.byName[parts[0]]
 		if pkg == nil {
+			pkg = t.selfPkg09(parts[0]) // [ext:T09] a function of the translated package itself
+		}
+		if pkg == nil {
 			t.fail(nil, "foreign function %s: package %s is not imported by the translated package (or has no stub)", fs.Name, parts[0])
 		}
 		fo := &foreignInfo{spec: fs, field: coqIdent08(fs.Name), writes: map[int]bool{}}
@@ -288,6 +291,7 @@ func (t *Translator) record08() string {
 		fmt.Fprintf(&b, "  %s : Type;\n", o)
 		names = append(names, o)
 	}
+	names = append(names, t.recordVars09(&b)...) // [ext:T09] variables of foreign packages
 	for i, fo := range st.foreign {
 		var ts []string
 		if fo.method {
@@ -525,6 +529,9 @@ func (t *Translator) foreignOf(x *ast.CallExpr) *foreignInfo {
 	if t.x08 == nil || len(t.x08.foreign) == 0 {
 		return nil
 	}
+	if fo := t.selfForeign09(x); fo != nil { // [ext:T09]
+		return fo
+	}
 	sel, ok := ast.Unparen(x.Fun).(*ast.SelectorExpr)
 	if !ok {
 		return nil
@@ -564,6 +571,7 @@ func (t *Translator) foreign08(fi *funcInfo) bool {
 			return !need
 		})
 	}
+	need = need || t.usesForeignVar09(fi) // [ext:T09]
 	if !need && fi.frag == nil {
 		sig := fi.obj.Type().(*types.Signature)
 		for i := 0; i < sig.Params().Len(); i++ {
@@ -757,12 +765,19 @@ func (c *fctx) foreignCall08(x *ast.CallExpr, en *env, k func([]string) string) 
 	if fo == nil {
 		return "", false
 	}
+	return c.foreignApply08(fo, sel, x, en, k), true
+}
+
+// foreignApply08: the call x of the foreign function fo (split off for [ext:T09], which calls it for functions of the package).
+func (c *fctx) foreignApply08(fo *foreignInfo, sel *ast.SelectorExpr, x *ast.CallExpr, en *env, k func([]string) string) string {
+	t := c.t
 	if len(x.Args) != len(fo.params) {
 		t.fail(x, "call of %s with %d arguments", fo.spec.Name, len(x.Args))
 	}
 	type wr struct {
 		base ast.Expr
 		name string
+		wrap string // [ext:T09] v[a:]: the format of v's new value
 	}
 	var writes []wr
 	seenKey := map[string]bool{}
@@ -798,7 +813,11 @@ func (c *fctx) foreignCall08(x *ast.CallExpr, en *env, k func([]string) string) 
 			if i == len(writes) {
 				return k(rs)
 			}
-			return c.store(writes[i].base, writes[i].name, en, func() string { return rec(i + 1) })
+			val := writes[i].name
+			if writes[i].wrap != "" { // [ext:T09]
+				val = fmt.Sprintf(writes[i].wrap, val)
+			}
+			return c.store(writes[i].base, val, en, func() string { return rec(i + 1) })
 		}
 		return fmt.Sprintf("do %s <- %s;;\n%s", pat, app, rec(0))
 	}
@@ -818,17 +837,31 @@ func (c *fctx) foreignCall08(x *ast.CallExpr, en *env, k func([]string) string) 
 			})
 		}
 		base, high, ok := c.writeBase08(x.Args[i])
+		var low ast.Expr
+		if !ok {
+			base, low, ok = c.writeBase09(x.Args[i]) // [ext:T09] v[a:]
+		}
 		if !ok {
 			t.fail(x.Args[i], "argument %d of %s is written by the callee: only v, v[:] or v[:n] with v a variable or a field", i, fo.spec.Name)
 		}
 		key := c.sliceKey(base, en)
-		c.checkWritable(key, en, x)
+		if !c.deadAlias09(key, en, x) { // [ext:T09] sharing with variables that are dead behind the call
+			c.checkWritable(key, en, x)
+		}
 		if seenKey[key] {
 			t.fail(x, "%s writes two arguments that are the same variable", fo.spec.Name)
 		}
 		seenKey[key] = true
 		writes = append(writes, wr{base: base})
+		wi := len(writes) - 1
 		return c.expr(base, en, func(b string) string {
+			if low != nil { // [ext:T09] v[a:]
+				return c.subWrite09(b, low, en, func(buf, n, wrap string) string {
+					argv = append(argv[:len(argv):len(argv)], buf, n)
+					writes[wi].wrap = wrap
+					return rec(i+1, recv)
+				})
+			}
 			if high == nil {
 				argv = append(argv[:len(argv):len(argv)], b, "(zlen "+b+")")
 				return rec(i+1, recv)
@@ -843,9 +876,9 @@ func (c *fctx) foreignCall08(x *ast.CallExpr, en *env, k func([]string) string) 
 		if g := t.exprType(sel.X); g.k != kOpaque {
 			t.fail(x, "receiver of the foreign method %s", fo.spec.Name)
 		}
-		return c.expr(sel.X, en, func(r string) string { return rec(0, r) }), true
+		return c.expr(sel.X, en, func(r string) string { return rec(0, r) })
 	}
-	return rec(0, ""), true
+	return rec(0, "")
 }
 
 // lhsType08: the type of an assignment target; a variable that a `:=` redeclares has no entry in info.Types.
